@@ -34,13 +34,17 @@ ASSUMPTIONS = [
 ALL = ["create", "fix", "trim", "update"]
 
 
+# displays in which black drops the parentheses of a parenthesised sole element
+SOLE = ("list", "vec", "set", "frozenset")
+
+
 def _paren_complex(d):
     return d[0] == "complex" and float(d[1]) != 0.0
 
 
 def signature(case):
-    """black >= 24 drops the parentheses of a parenthesised expression that is the only element of a list
-    (`[(1+0j)]` -> `[1 + 0j]`), see known finding F36"""
+    """black >= 24 drops the parentheses of a parenthesised expression that is the only element of a list or
+    set display (`[(1+0j)]` -> `[1 + 0j]`, `frozenset({(1+0j)})` -> `frozenset({1 + 0j})`), see known finding F36"""
     sigs = set()
 
     def lists_written(s):
@@ -55,12 +59,12 @@ def signature(case):
                     yield xs
                 else:
                     for x in xs:
-                        yield from (y[1] for y in gv.walk(x) if y[0] in ("list", "vec"))
+                        yield from (y[1] for y in gv.walk(x) if y[0] in SOLE)
         else:
             for e in s["events"]:
-                yield from (y[1] for y in gv.walk(e) if y[0] in ("list", "vec"))
+                yield from (y[1] for y in gv.walk(e) if y[0] in SOLE)
         if s.get("prev_desc") is not None:
-            yield from (y[1] for y in gv.walk(s["prev_desc"]) if y[0] in ("list", "vec"))
+            yield from (y[1] for y in gv.walk(s["prev_desc"]) if y[0] in SOLE)
 
     for s in case["prog"]["sites"]:
         for xs in lists_written(s):
